@@ -3002,6 +3002,8 @@ theorem scopeOf_ok (d : Draft) (kvs : List (Str × Json))
           | some v => isStrJ v | none => true) = true) :
     ∃ sc, scopeOf (d.cfg none) kvs = .ok sc := by
   unfold scopeOf
+  split
+  · exact ⟨_, rfl⟩
   rw [idKey_eq]
   unfold lookupJ at h
   cases hl : Json.lookup (ks (if (d = .d6 || d = .d7) = true then "$id" else "id")) kvs with
